@@ -390,7 +390,8 @@ def check_array_recursion(ctx, rep, rule, names=('mark', 'untrace')):
                             early = []
                             for u_ in sorted(body_):
                                 tu_ = fn.term(u_)
-                                outs_ = [v_ for v_ in fn.succ(u_) if v_ not in body_]
+                                # leaving the loop towards a panic (an assertion that failed) is not an exit the walk can take and go on
+                                outs_ = [v_ for v_ in fn.succ(u_) if v_ not in body_ and any(fn.term(x_)['k'] == 'return' for x_ in fn.reachable(v_))]
                                 if not outs_:
                                     continue
                                 dv_ = strip(_sym(fn, tu_['op'])) if tu_['k'] == 'switch' else None
